@@ -373,7 +373,8 @@ def r4(ctx: Ctx) -> None:
 def r5(ctx: Ctx) -> None:
     gs = ctx.func("SequentialRunner._generate_sessions")
     # the callback is a closure of the generating function or a method of the runner
-    cands = list(gs.nested.values()) + [m for m in (gs.cls.methods.values() if gs.cls is not None else ()) if m is not gs]
+    meths = [m for m in (gs.cls.methods.values() if gs.cls is not None else ())]
+    cands = [n_ for m in meths for n_ in m.nested.values()] + [m for m in meths if m is not gs]
     regs = [n for n in cands if any(isinstance(x, ast.Call) and isinstance(x.func, ast.Attribute) and x.func.attr == "_add_event" for x in ast.walk(n.node))]
     regs = [n for n in regs if any(calls_target(e, "Simulator._add_event") for p in ctx.paths(n.qualname) for e in calls(p))]
     ctx.require(len(regs) == 1, "_generate_sessions: the deferred hook-registration callback was not found")
@@ -399,10 +400,10 @@ def r5(ctx: Ctx) -> None:
             if isinstance(n.ctx, ast.Store):
                 bound.add(n.id)
     for n in ast.walk(cb.node):
-        if isinstance(n, ast.Name) and isinstance(n.ctx, ast.Load) and n.id not in bound and n.id not in ("self",) and n.id not in gs.module.imports and n.id not in dir(__builtins__):
+        if isinstance(n, ast.Name) and isinstance(n.ctx, ast.Load) and n.id not in bound and n.id not in ("self",) and n.id not in gs.module.imports and n.id not in dir(__builtins__) and n.id not in dir(__import__("builtins")):
             free.add(n.id)
     loopvars = set()
-    for n in ast.walk(gs.node):
+    for n in ast.walk((cb.outer or gs).node):
         if isinstance(n, ast.For):
             for x in ast.walk(n):
                 if isinstance(x, ast.Name) and isinstance(x.ctx, ast.Store):
